@@ -30,9 +30,9 @@ from lib import fw
 
 MODULE = "AurelVerif.Props.C14"
 THEOREMS = ["AurelVerif.C14." + t for t in (
-    "per_step", "per_step_builtin", "no_leakage", "estimates", "estimates_not_recomputed",
-    "sorted_together", "sorted_together_full_is_false", "nothing_new_returns_input",
-    "split_invariance", "split_any_order_is_false",
+    "per_step", "per_step_builtin", "no_leakage", "estimates", "scalar_keys",
+    "sorted_together_partial", "sorted_together_full_is_false", "nothing_new_returns_input",
+    "split_invariance", "split_of_sequence", "splitHyp_t1", "split_any_order_is_false",
     "single_row", "temporal_key_last_wins", "temporal_key_cases", "no_temporal_key_raises")]
 LEAN_FILES = ["AurelVerif/Props/C14.lean", "AurelVerif/Lemmas/Table.lean", "AurelVerif/Model/Table.lean",
               "Driver/C14.lean"]
@@ -766,16 +766,21 @@ def correspondence(ctx, scs, label):
                         if a != b:
                             d = "column %s: impl %s model %s" % (c, a, b)
                             break
-        key = "%d rows/%d calls/%s/%s" % (len(sc["order"]), len(sc["calls"]), "+".join(c for c in sc["cols"] if c in sc["tvals"]),
-                                          "domain" if sc["domain"] else "free")
-        dist[key] = dist.get(key, 0) + 1
+        for key in ("rows=%d" % len(sc["order"]), "calls=%d" % len(sc["calls"]),
+                    "temporal=" + "+".join(c for c in sc["cols"] if c in sc["tvals"]),
+                    "domain" if sc["domain"] else "free",
+                    "ties" if any(len(set(v)) < len(v) for v in sc["tvals"].values()) else "distinct",
+                    "kwargs=" + "+".join(sorted(sc["kwargs"]))):
+            dist[key] = dist.get(key, 0) + 1
         ctx.count("cells_compared", 0 if isinstance(can, str) else sum(len(i) for _, i in can))
         if isinstance(real, str):
             ctx.count("exceptions_" + real)
         if not ok:
             bad.append((line, d))
         results.append((sc, r, refd, real, modified, ok))
-    ctx.cov.setdefault("correspondence_distribution", {}).update(dist)
+    cd = ctx.cov.setdefault("correspondence_distribution", {})
+    for k, v in dist.items():
+        cd[k] = cd.get(k, 0) + v
     ctx.cov["inexact_matches(1e-12)"] = ctx.cov.get("inexact_matches(1e-12)", 0) + stats.get("inexact", 0)
     ctx.obligation("correspondence: Model/Table vs aurel.over_time, %s (%d scenarios)" % (label, len(scs)),
                    not bad, "; ".join("%s -> %s" % b for b in bad[:3]), kind="correspondence")
@@ -833,7 +838,7 @@ def run(ctx):
     if ctx.tier == "thorough":
         ctx.leanchecker([MODULE])
     # 4. correspondence
-    n_sc = ctx.budget(140, 1500)
+    n_sc = ctx.budget(300, 3000)
     scs = [gen_scenario(ctx.rng, ctx.tier) for _ in range(n_sc)]
     results, bad = correspondence(ctx, scs, "random scenarios")
     correspondence(ctx, error_scenarios(), "malformed tables")
